@@ -371,3 +371,39 @@ Proof.
   destruct (run _ _ _ _) as [l2 f2]. cbn [fst snd] in A, B. subst l2 f2.
   destruct f; [destruct (dd_endcall _ _ _ _) as [d2 ops2]|..]; reflexivity.
 Qed.
+
+(* ---- the true form of (b), stated, NOT proved ---------------------------------------------------------
+   What a decoder call needs from (dict, dictSize): match offsets are < 64 KB, so only the last
+   min(dictSize, 64 KB) bytes matter; they must be the end of the history, and dictSize must not be shorter
+   than min(64 KB, |history|).  The history is the concatenation of what the earlier operations of the frame
+   stored or decoded. *)
+Definition decode_sees_history (m : mem) (dp : ptr) (ds : Z) (hist : list byte) : Prop :=
+  let k := Z.min ds FD_64KB in
+  Z.min FD_64KB (zlen hist) <= ds /\ read m (padd dp (ds - k)) k = lastn (Z.to_nat k) hist.
+Definition op_payload (op : mop) : list byte :=
+  match op with MWrite _ bs => bs | MDecode _ _ _ _ bs => bs | MCopy _ _ _ => [] end.
+Fixpoint decodes_ok (m : mem) (hist : list byte) (ops : list mop) : Prop :=
+  match ops with
+  | [] => True
+  | op :: r =>
+    match op with MDecode _ _ dp ds _ => decode_sees_history m dp ds hist | _ => True end /\
+    decodes_ok (exec_op m op) (hist ++ op_payload op) r
+  end.
+(* across the calls of a session that decodes one frame: without stableDst the caller may overwrite all of its
+   memory between two calls *)
+Fixpoint session_decodes_ok (m : mem) (hist : list byte) (xs : list (dstate * ddcall * list mop)) : Prop :=
+  match xs with
+  | [] => True
+  | x :: r =>
+    let ops := snd x in
+    decodes_ok m hist ops /\
+    forall abs', session_decodes_ok (mkM (m_tmp (exec_ops m ops)) abs') (hist ++ concat (map op_payload ops)) r
+  end.
+Definition dict_is_history_full_statement : Prop :=
+  forall bdec cs m0,
+    Forall (fun c => 0 <= dc_cap c /\ dc_dict c = None /\ o_stableDst (dc_o c) = false /\
+                     (o_dstnull (dc_o c) = true -> dc_cap c = 0)) cs ->
+    (* one linked frame: no call of the session ends back at dstage_getFrameHeader except the last one *)
+    (forall x, In x (removelast (dd_session bdec dctx_init dd_init cs)) ->
+               d_stage (fst (fst x)) <> GetFrameHeader /\ linked (fst (fst x)) = true) ->
+    session_decodes_ok m0 [] (dd_session bdec dctx_init dd_init cs).
